@@ -453,7 +453,7 @@ R6_TABLE = [
     (r'\.map_or\(0, Bytes::len\)', '.vx_map_or_0_len()'),
     (r'\(\*cb\)\(', 'cb.vx_call('),
     (r'\|_\|', '|_vx0|'),
-    (r'peer_receive_max\s*\.map_or\(max_send_cfg, \|val\| cmp::min\(max_send_cfg, val\)\)', 'vx_min_opt(max_send_cfg, peer_receive_max)'),
+    (r'\b([A-Za-z_][\w.]*)\s*\.map_or\(\s*([A-Za-z_][\w.]*)\s*,\s*\|val\|\s*cmp::min\(\s*\2\s*,\s*val\s*\)\s*\)', r'vx_min_opt(\2, \1)'),
     (r'([\w.]+(?:\([^()]*\))?(?:\.unwrap\(\))?)\.as_str\(\) != ([\w.]+)\.as_str\(\)', r'!vx_bstr_eq(\1.vx_b(), \2.vx_b())'),
     (r'(?<![\w.])topic\.is_empty\(\)', 'vx_str_is_empty(topic)'),
     (r'(?<![\w.])topic\.bytes\(\)', 'vx_str_bytes(topic)'),
